@@ -218,7 +218,7 @@ def _merge_allowed_values(
             # If this definition doesn't have a set of allowedValues, then it's unconstrained.
             # Thus, it's happy with any values and we can move on to the next one.
             continue
-        if not return_value:
+        if return_value is None:
             return_value = cast(
                 Union[set[str], set[int], set[Decimal]], set(definition.allowedValues)
             )
